@@ -48,11 +48,11 @@ def invB (m : Mgr) : Bool :=
   && m.heap.all fun ci => decide (lower ci.cluster = ci.cluster)
 
 /-- An event for cluster `c` leaves every name held by another cluster alone (same `ClusterInfo`, same content,
-    same running state), and every mapping that is new or different afterwards belongs to `c`. -/
+    same running state), and every key whose mapping changed belonged to `c` before or belongs to `c` afterwards. -/
 structure Frame (c : Str) (m m' : Mgr) : Prop where
   keep : ∀ k p ci, m.look k = some p → m.heap[p]? = some ci → ci.cluster ≠ c →
           m'.look k = some p ∧ m'.heap[p]? = some ci ∧ (p ∈ m'.stopped ↔ p ∈ m.stopped)
-  only : ∀ k, m'.look k = m.look k ∨ clusterAt m' k = some c
+  only : ∀ k, m'.look k = m.look k ∨ clusterAt m' k = some c ∨ clusterAt m k = some c
 
 def frameB (c : Str) (m m' : Mgr) : Bool :=
   (m.map.all fun e =>
@@ -65,8 +65,10 @@ def frameB (c : Str) (m m' : Mgr) : Bool :=
         decide (ci.cluster = c) ||
         (decide (m'.look e.1 = some p) && decide (m'.heap[p]? = some ci)
           && (decide (p ∈ m'.stopped) == decide (p ∈ m.stopped))))
-  && (m'.map.all fun e => decide (m'.look e.1 = m.look e.1) || decide (clusterAt m' e.1 = some c))
-  && (m.map.all fun e => decide (m'.look e.1 = m.look e.1) || decide (clusterAt m' e.1 = some c))
+  && (m'.map.all fun e => decide (m'.look e.1 = m.look e.1) || decide (clusterAt m' e.1 = some c)
+        || decide (clusterAt m e.1 = some c))
+  && (m.map.all fun e => decide (m'.look e.1 = m.look e.1) || decide (clusterAt m' e.1 = some c)
+        || decide (clusterAt m e.1 = some c))
 
 /-- nothing observable changed -/
 structure Unchanged (m m' : Mgr) : Prop where
